@@ -429,6 +429,9 @@ func upstreamProcsForProc(proc WorkflowProcess) map[string]WorkflowProcess {
 		}
 	}
 	for _, pip := range proc.InParamPorts() {
+		// The feeder go-routine started by FromStr() removes its port from
+		// RemotePorts when it is done, possibly while we are looking at it
+		pip.closeLock.Lock()
 		for _, rpp := range pip.RemotePorts {
 			if rpp.Process() == proc {
 				// The feeder port created by FromStr() belongs to the process
@@ -438,6 +441,7 @@ func upstreamProcsForProc(proc WorkflowProcess) map[string]WorkflowProcess {
 			procs[rpp.Process().Name()] = rpp.Process()
 			mergeWFMaps(procs, upstreamProcsForProc(rpp.Process()))
 		}
+		pip.closeLock.Unlock()
 	}
 	return procs
 }
